@@ -336,6 +336,75 @@ def cipher_block_extent_rule(ctx, mpq, pid):
         ctx.bad(R, "cipher-extent|none", "-", "no whole-vs-per-sector decryption choice found on the read path", "shape changed")
 
 
+def het_candidate_confirmed_rule(ctx, mpq, pid):
+    """an 8-bit HET hash says little (128 values): the BET name hash is what proves that a candidate slot holds the requested name.
+    Wherever a reader turns a HET candidate into file info, the BET hash test has said yes on every path"""
+    R = ctx.rule("%s.het-candidate-confirmed-by-bet-hash" % pid, "in every function that calls HetTable::find_file* and BetTable::get_file_info, each get_file_info call is dominated by the taken (true) edge of a test of BetTable::verify_file_hash", floor=1)
+    n = 0
+    for f in mpq.fn_list:
+        if f.kind == "Closure" or not f.mir or not f.mir.get("blocks") or "::tests::" in f.path:
+            continue
+        calls = list(mirg.iter_calls(f))
+        het = [bb for bb, t in calls if re.search(r"HetTable::find_file", ncallee(t) or "")]
+        gfi = [(bb, t) for bb, t in calls if re.search(r"BetTable::get_file_info$", ncallee(t) or "")]
+        if not het or not gfi:
+            continue
+        ctx.saw_fn(f)
+        cfg = mirg.Cfg(f)
+        blocks = f.mir["blocks"]
+        yes = []
+        for bb, t in calls:
+            if not re.search(r"BetTable::verify_file_hash$", ncallee(t) or "") or t.get("t") is None:
+                continue
+            # the block the call returns to switches on the result (possibly after copies): its non-zero target is the "hash matches" edge
+            nb = blocks[t["t"]]["t"]
+            if nb["k"] == "switch":
+                zero = [tg for v, tg in nb["ts"] if v == 0]
+                other = nb["o"]
+                yes.append(other if zero else None)
+        for bb, t in gfi:
+            n += 1
+            if any(y is not None and (y == bb or cfg.dominates(y, bb)) for y in yes):
+                ctx.ok(R, {"fn": f.path.split("::")[-1], "line": t["ln"]})
+            else:
+                ctx.bad(R, "%s|unconfirmed-candidate" % f.path.split("::")[-1], "%s:%d" % (f.file, t["ln"]), "a HET candidate is turned into file info on a path that has not passed a successful BetTable::verify_file_hash",
+                        "a name that was never added, but whose 8-bit HET hash equals a stored file's, resolves to that file: read_file returns another file's content instead of FileNotFound")
+    if n == 0:
+        ctx.bad(R, "het-bet-lookup|none", "-", "no function combining HetTable::find_file* with BetTable::get_file_info found", "shape changed")
+
+
+def stored_name_rule(ctx, mpq, pid):
+    """the builder stores, hashes and key-derives a file under normalize_mpq_path(name); the reader hashes the name as the caller spells
+    it.  The two agree for every name only if the normalisation does nothing the hash fold does not do itself: '/' -> '\\' (and
+    nothing else — no trimming, no case change, no component clean-up)"""
+    R = ctx.rule("%s.stored-name-normalisation-is-hash-invisible" % pid, "normalize_mpq_path applies only str::replace('/', \"\\\\\") to its argument (every other string method that can change the text is a violation)", floor=1)
+    f = mpq.fns.get("wow_mpq::path::normalize_mpq_path")
+    if f is None or not f.hir:
+        ctx.bad(R, "normalize_mpq_path|missing", "-", "function not found", "anchor gone")
+        return
+    ctx.saw_fn(f)
+    NEUTRAL = {"to_string", "to_owned", "into", "as_str", "as_ref", "clone", "collect", "chars", "bytes", "iter", "as_bytes", "into_owned", "to_str", "borrow"}
+    found_replace, other = False, []
+    for c in hirq.walk(f.hir["body"]):
+        if c.get("k") != "mcall":
+            continue
+        if c["m"] == "replace" and len(c.get("args") or []) == 2:
+            a0, a1 = hirq.strip(c["args"][0]), hirq.strip(c["args"][1])
+            frm = (a0.get("v") or {}).get("char") or (a0.get("v") or {}).get("str") if a0.get("k") == "lit" else None
+            to = (a1.get("v") or {}).get("char") or (a1.get("v") or {}).get("str") if a1.get("k") == "lit" else None
+            if frm in ("/", 47) and to in ("\\", 92):
+                found_replace = True
+                continue
+            other.append("replace(%s, %s)" % (hirq.render(a0), hirq.render(a1)))
+        elif c["m"] not in NEUTRAL:
+            other.append(c["m"])
+    if found_replace and not other:
+        ctx.ok(R, {"fn": "normalize_mpq_path", "applies": "replace('/', '\\')"})
+    else:
+        ctx.bad(R, "normalize_mpq_path|rewrites-name", f.where, "the stored name is additionally rewritten by %s" % (", ".join(sorted(set(other))) or "(no '/' -> '\\' replacement found)"),
+                "a file added under a name this changes is hashed, listed and key-derived under another name than the one a reader hashes: it cannot be read back under its own name, and a name that was never added resolves to it")
+
+
 def het_bet_writer_matches_reader_rule(ctx, mpq, pid):
     fns = mpq.fns
     M = "wow_mpq::"
@@ -537,6 +606,8 @@ def run(ctx):
     key_from_final_flags_rule(ctx, mpq, "C01")
     het_bet_writer_matches_reader_rule(ctx, mpq, "C01")
     cipher_block_extent_rule(ctx, mpq, "C01")
+    het_candidate_confirmed_rule(ctx, mpq, "C01")
+    stored_name_rule(ctx, mpq, "C01")
     from .c06 import version_gate_rule
     version_gate_rule(ctx, mpq, "C01", r"::builder::")
     from .c03 import never_expands_rule
